@@ -4,6 +4,7 @@ CONSTANTS
   Ifaces = {}
   MaxRounds = 1
   MaxTimeouts = 2
+  MaxBinds = 2
   Dev = {}
 INVARIANTS TypeOK AccountedOnce Drained NilWhenWaiting NoServeAfterShutdown TimeoutOnlyIdle
   EndpointReleased RegistrationOrder NoDupNames NoRace
